@@ -512,15 +512,41 @@ def _recv_into_ext(I, ref, args, kw):
 def _recv_ext(I, ref, args, kw):
     """recv(n): any 1..min(n, remaining) bytes, or b"" at EOF"""
     n = I.as_int(args[0])
-    if len(args) > 1 or kw:
-        raise OutOfReach("recv with flags")
+    flags = args[1] if len(args) > 1 else kw.get("flags", 0)
+    from pyvc.smt import conc_int
+
+    flags = conc_int(I.as_int(flags)) if I.is_intlike(flags) else None
+    MSG_PEEK, MSG_WAITALL = 2, 0x100
+    if flags is None or flags & ~(MSG_PEEK | MSG_WAITALL):
+        raise OutOfReach("recv with flags other than MSG_PEEK / MSG_WAITALL")
     cur = I.ctx.ghost["cur"]
     left = blen(STREAM) - Z(cur)
     k = fresh_int("recv_k")
     I.ctx.assume(z3.And(k >= 0, k <= Z(n), k <= left, z3.Implies(z3.And(left > 0, Z(n) > 0), k >= 1)))
-    I.ctx.event("recv", n=n, k=k)
-    I.ctx.ghost["cur"] = Z(cur) + k
+    if flags & MSG_WAITALL:
+        # blocks until n bytes or EOF (signals and errors aside): min(n, remaining)
+        I.ctx.assume(z3.Or(k == Z(n), k == left))
+    I.ctx.event("recv", n=n, k=k, flags=flags)
+    if not flags & MSG_PEEK:
+        I.ctx.ghost["cur"] = Z(cur) + k  # MSG_PEEK leaves the data in the queue
     return stream_slice(cur, Z(cur) + k)
+
+
+@REG.extern_method("StreamReader.read")
+def _sr_read(I, ref, args, kw):
+    """await reader.read(n): any 1..min(n, remaining) bytes, or b"" at EOF"""
+    from pyvc.values import Coro
+
+    n = I.as_int(args[0]) if args else -1
+    if not I.ctx.entails(Z(n) >= 0):
+        raise OutOfReach("StreamReader.read without a non-negative size")
+    cur = I.ctx.ghost["cur"]
+    left = blen(STREAM) - Z(cur)
+    k = fresh_int("read_k")
+    I.ctx.assume(z3.And(k >= 0, k <= Z(n), k <= left, z3.Implies(z3.And(left > 0, Z(n) > 0), k >= 1)))
+    I.ctx.event("read", n=n, k=k)
+    I.ctx.ghost["cur"] = Z(cur) + k
+    return Coro(stream_slice(cur, Z(cur) + k))
 
 
 @REG.extern_method("socket.sendall")
